@@ -70,16 +70,7 @@ Proof.
   rewrite row_of_app, rowdot_app, face_row, IH. reflexivity.
 Qed.
 
-(* the neighbours of k with their weights: one item per adjacent face edge *)
-Definition edge_nbrs (i j : Z) (w : Q) (k : Z) : list (Z * Q) :=
-  (if (i =? k)%Z then [(j, w)] else []) ++ (if (j =? k)%Z then [(i, w)] else []).
-Fixpoint nbrs (t : Z) (fs : list face) (cot : option (list Q)) (k : Z) : list (Z * Q) :=
-  match fs with
-  | [] => []
-  | (p, q, r) :: rest =>
-      (let '(a, b, c) := face_weights cot t in edge_nbrs p q c k ++ edge_nbrs q r a k ++ edge_nbrs r p b k)
-      ++ nbrs (t + 1)%Z rest cot k
-  end.
+(* [edge_nbrs], [nbrs] (the neighbours of k with their weights, one item per adjacent face edge) are in Model.v *)
 
 (* sum_{(j,w)} w * (f k - f j) *)
 Fixpoint nsum (N : list (Z * Q)) (g : Z -> Q -> Q) : Q :=
